@@ -27,6 +27,7 @@ import SvModel.Proofs.MoveCtorAll
 import SvModel.Proofs.MoveAssignAll
 import SvModel.Proofs.CopyAssignProp
 import SvModel.Proofs.SwapAll
+import SvModel.Proofs.AppendOtherMove
 import SvModel.Api
 
 namespace SvModel.System
@@ -43,6 +44,8 @@ inductive MOp (α : Type) where
   | ctorMove (c o : Nat)                     -- small_vector (std::move (o)), any pair of inline capacities
   | ctorMoveAlloc (c o a : Nat)              -- small_vector (std::move (o), a)
   | moveAssign (c o : Nat)                   -- c = std::move (o), any pair of inline capacities, any allocator relation
+  | append (c o : Nat)                       -- c.append (o), any pair of inline capacities
+  | appendMove (c o : Nat)                   -- c.append (std::move (o)): copies or moves as the element type dictates, then o.clear ()
 
 structure St (α : Type) where
   w : World α
@@ -60,6 +63,7 @@ def MOp.valid (cfg : Cfg) (U : List Nat) (s : St α) : MOp α → Prop
   | .ctorMove c o | .ctorMoveAlloc c o _ => c ∈ U ∧ c ∉ s.A ∧ o ∈ s.A ∧ ((s.w.hdr c).N = 0 → (s.w.hdr o).N = 0 → (s.w.hdr c).inl = (s.w.hdr o).inl)
   | .moveAssign c o => c ∈ s.A ∧ o ∈ s.A ∧ c ≠ o ∧ ((s.w.hdr c).N = 0 → (s.w.hdr o).N = 0 → (s.w.hdr c).inl = (s.w.hdr o).inl) ∧
       (allocationsAreMovable cfg.policy = true → cfg.policy.pocma = true ∨ (s.w.hdr c).alloc = (s.w.hdr o).alloc)
+  | .append c o | .appendMove c o => c ∈ s.A ∧ o ∈ s.A ∧ o ≠ c
 
 def MOp.run (cfg : Cfg) (w : World α) : MOp α → M α Unit
   | .ctorVals c a vs => ctorFill cfg c a true (vs.map Src.ext)
@@ -71,6 +75,8 @@ def MOp.run (cfg : Cfg) (w : World α) : MOp α → M α Unit
   | .ctorMove c o => SvModel.ctorMove cfg c o
   | .ctorMoveAlloc c o a => SvModel.ctorMoveAlloc cfg c o a
   | .moveAssign c o => SvModel.moveAssign cfg c o
+  | .append c o => SvModel.appendOther cfg c o
+  | .appendMove c o => SvModel.appendOtherMove cfg c o
 
 /-- one call: install the fault list, run; a constructor that returns adds its container, a destructor removes it -/
 def step (cfg : Cfg) (s : St α) (x : MOp α × List Nat) : St α :=
@@ -80,7 +86,7 @@ def step (cfg : Cfg) (s : St α) (x : MOp α × List Nat) : St α :=
       { w := w', A := match x.1 with
                      | .ctorVals c _ _ | .ctorCopy c _ _ | .ctorMove c _ | .ctorMoveAlloc c _ _ => c :: s.A
                      | .dtor c => s.A.filter (· ≠ c)
-                     | .on _ _ | .copyAssign _ _ | .swap _ _ | .moveAssign _ _ => s.A }
+                     | .on _ _ | .copyAssign _ _ | .swap _ _ | .moveAssign _ _ | .append _ _ | .appendMove _ _ => s.A }
   | .thrown _ w' => { w := w', A := s.A }
 
 def run (cfg : Cfg) : St α → List (MOp α × List Nat) → St α
@@ -225,6 +231,20 @@ theorem step_sys (cfg : Cfg) (U : List Nat) (hpol : StrongPolicy cfg) (s : St α
     cases hr : SvModel.moveAssign cfg c o w0 with
     | ok r w' => rw [hr] at h; simp only [MOp.run, hr]; exact h.1
     | thrown e w' => rw [hr] at h; simp only [MOp.run, hr]; exact h.1
+  | append c o =>
+    obtain ⟨hc, ho, hoc⟩ := hv
+    have h := SysAll.appendOther hs0 hc ho hoc hpol
+    cases hr : SvModel.appendOther cfg c o w0 with
+    | ok r w' => rw [hr] at h; simp only [MOp.run, hr]; exact h.1
+    | thrown e w' =>
+      rw [hr] at h; simp only [MOp.run, hr]
+      exact hs0.step hc (Strong.basic h hs0.ok.led (hs0.ok.vec c hc))
+  | appendMove c o =>
+    obtain ⟨hc, ho, hoc⟩ := hv
+    have h := SysAll.appendOtherMove hs0 hc ho hoc hpol
+    cases hr : SvModel.appendOtherMove cfg c o w0 with
+    | ok r w' => rw [hr] at h; simp only [MOp.run, hr]; exact h.1
+    | thrown e w' => rw [hr] at h; simp only [MOp.run, hr]; exact h.2.1
 
 /-- C02 / C03 / C04 / C06 over histories of several interacting containers -/
 theorem reachable_sys (cfg : Cfg) (U : List Nat) (hpol : StrongPolicy cfg) :
@@ -265,8 +285,8 @@ def Tracks (s : St α) (σ : Nat → List (Val α)) : Prop := ∀ c ∈ s.A, Hol
 
 /-- the containers a call writes to -/
 def MOp.targets : MOp α → List Nat
-  | .ctorVals c _ _ | .ctorCopy c _ _ | .dtor c | .on c _ | .copyAssign c _ => [c]
-  | .swap c o | .ctorMove c o | .ctorMoveAlloc c o _ | .moveAssign c o => [c, o]
+  | .ctorVals c _ _ | .ctorCopy c _ _ | .dtor c | .on c _ | .copyAssign c _ | .append c _ => [c]
+  | .swap c o | .ctorMove c o | .ctorMoveAlloc c o _ | .moveAssign c o | .appendMove c o => [c, o]
 
 /-- the containers whose contents after a returning call the standard leaves unspecified ("valid but unspecified"):
     the source of an element-wise move -/
@@ -283,6 +303,8 @@ def MOp.spec (σ : Nat → List (Val α)) : MOp α → Nat → List (Val α)
   | .copyAssign c o => upd σ c (σ o)
   | .swap c o => upd (upd σ c (σ o)) o (σ c)
   | .ctorMove c o | .ctorMoveAlloc c o _ | .moveAssign c o => upd σ c (σ o)          -- the source: see `MOp.unspecified`
+  | .append c o => upd σ c (σ c ++ σ o)
+  | .appendMove c o => upd (upd σ c (σ c ++ σ o)) o []                               -- the source is cleared
 
 /-- did the call return? -/
 def returned (cfg : Cfg) (s : St α) (x : MOp α × List Nat) : Bool :=
@@ -515,6 +537,46 @@ theorem step_tracks (cfg : Cfg) (U : List Nat) (hpol : StrongPolicy cfg) (s : St
     | thrown e w' =>
       rw [hr] at h; simp only [MOp.run, hr]
       obtain ⟨_, ⟨zs, hz⟩, ⟨ys, hy⟩, hoth⟩ := h
+      refine ⟨(fun h' => by cases h'), fun _ => ⟨upd (upd σ c zs) o ys, fun d hd => ?_, fun d hd => ?_⟩⟩
+      · by_cases hdo : d = o
+        · rw [hdo, upd_same]; exact hy
+        · rw [upd_other _ _ _ _ hdo]
+          by_cases hdc : d = c
+          · rw [hdc, upd_same]; exact hz
+          · rw [upd_other _ _ _ _ hdc]; exact hoth d hd hdc hdo _ (ht0 d hd)
+      · have : d ≠ c ∧ d ≠ o := by simpa [MOp.targets] using hd
+        rw [upd_other _ _ _ _ this.2, upd_other _ _ _ _ this.1]
+  | append c o =>
+    obtain ⟨hc, ho, hoc⟩ := hv
+    have h := SysAll.appendOther hs0 hc ho hoc hpol
+    cases hr : SvModel.appendOther cfg c o w0 with
+    | ok r w' =>
+      rw [hr] at h; simp only [MOp.run, hr]
+      refine ⟨fun _ => ⟨_, fun _ _ => rfl, fun d hd => ?_⟩, fun h' => by cases h'⟩
+      by_cases hdc : d = c
+      · rw [hdc]; simp only [MOp.spec, upd_same]; exact h.2.1 _ _ (ht0 c hc) (ht0 o ho)
+      · simp only [MOp.spec, upd_other _ _ _ _ hdc]; exact h.2.2 d hd hdc _ (ht0 d hd)
+    | thrown e w' =>
+      rw [hr] at h; simp only [MOp.run, hr]
+      exact ⟨(fun h' => by cases h'), fun _ => ⟨σ, fun d hd => Strong.holds h hs0.ok.led (hs0.ok.vec d hd) (ht0 d hd), fun _ _ => rfl⟩⟩
+  | appendMove c o =>
+    obtain ⟨hc, ho, hoc⟩ := hv
+    have hco : c ≠ o := fun e => hoc e.symm
+    have h := SysAll.appendOtherMove hs0 hc ho hoc hpol
+    cases hr : SvModel.appendOtherMove cfg c o w0 with
+    | ok r w' =>
+      rw [hr] at h; simp only [MOp.run, hr]
+      refine ⟨fun _ => ⟨_, fun _ _ => rfl, fun d hd => ?_⟩, fun h' => by cases h'⟩
+      by_cases hdo : d = o
+      · rw [hdo]; simp only [MOp.spec, upd_same]; exact h.2.2.1
+      · by_cases hdc : d = c
+        · rw [hdc]; simp only [MOp.spec, upd_other _ _ _ _ hco, upd_same]; exact h.2.1 _ _ (ht0 c hc) (ht0 o ho)
+        · simp only [MOp.spec, upd_other _ _ _ _ hdo, upd_other _ _ _ _ hdc]; exact h.2.2.2 d hd hdc hdo _ (ht0 d hd)
+    | thrown e w' =>
+      rw [hr] at h; simp only [MOp.run, hr]
+      obtain ⟨_, hsys, _, _, hoth⟩ := h
+      obtain ⟨zs, hz⟩ := (hsys.ok.vec c hc).holds_exists
+      obtain ⟨ys, hy⟩ := (hsys.ok.vec o ho).holds_exists
       refine ⟨(fun h' => by cases h'), fun _ => ⟨upd (upd σ c zs) o ys, fun d hd => ?_, fun d hd => ?_⟩⟩
       · by_cases hdo : d = o
         · rw [hdo, upd_same]; exact hy
@@ -773,5 +835,46 @@ example : let s1 := run Ex.cfgT ⟨initWorld 2 3, []⟩ (exMCA.take 1)
     (s2.w.hdr 2).data = (s1.w.hdr 0).data ∧ (s2.w.hdr 2).alloc = 1 ∧ (s2.w.hdr 0).size = 0 ∧
     returned Ex.cfgT (run Ex.cfgT ⟨initWorld 2 3, []⟩ (exMCA.take 3)) (.ctorMoveAlloc 3 1 7, [2]) = false ∧ s4.A = [1, 2, 0] ∧ s4.w.live.length = 2 ∧
     (s5.w.hdr 3).alloc = 7 ∧ s5.w.owner (s5.w.hdr 3).data = 7 ∧ (s5.w.hdr 3).data ≠ (s4.w.hdr 1).data ∧ (s5.w.hdr 1).size = 5 := by decide +kernel
+
+/-- non-vacuity for `append (other)` / `append (std::move (other))`: copying mode (copyable type with a throwing move:
+    a throw leaves both operands as they were), moving mode with a nothrow move (only the allocator can fail: nothing
+    changed), moving mode for a type that cannot be copied and whose move may throw (a throw half-way leaves the source with
+    moved-from elements, both containers valid, sizes unchanged); in place and reallocating -/
+def exApp : List (MOp Int × List Nat) :=
+  [(.ctorVals 0 0 [1, 2], []), (.ctorVals 2 0 [3, 4, 5], []), (.append 2 0, [1]), (.append 2 0, []),
+   (.appendMove 0 2, [3]), (.appendMove 0 2, []), (.on 2 (.pushBack 9), []), (.appendMove 2 0, []),
+   (.dtor 0, []), (.dtor 2, [])]
+def cfgNC : Cfg := { Ex.cfgT with hasCopy := false }
+def cfgNT : Cfg := { }
+
+example : relocateWithMove Ex.cfgT.policy = false ∧ relocateWithMove cfgNC.policy = true ∧ relocateWithMove cfgNT.policy = true ∧
+    cfgNT.tMove = false ∧ cfgNC.tMove = true := by decide
+example : (run Ex.cfgT ⟨initWorld 2 3, []⟩ exApp).A = [] ∧ (run Ex.cfgT ⟨initWorld 2 3, []⟩ exApp).w.live = [] ∧ (run Ex.cfgT ⟨initWorld 2 3, []⟩ exApp).w.ub = [] ∧
+    (run cfgNC ⟨initWorld 2 3, []⟩ exApp).A = [] ∧ (run cfgNC ⟨initWorld 2 3, []⟩ exApp).w.live = [] ∧ (run cfgNC ⟨initWorld 2 3, []⟩ exApp).w.ub = [] ∧
+    (run cfgNT ⟨initWorld 2 3, []⟩ exApp).A = [] ∧ (run cfgNT ⟨initWorld 2 3, []⟩ exApp).w.live = [] ∧ (run cfgNT ⟨initWorld 2 3, []⟩ exApp).w.ub = [] := by decide +kernel
+/-- copying mode: the 5th call throws and the source (container 2) is untouched; the 6th returns -/
+example : let s4 := run Ex.cfgT ⟨initWorld 2 3, []⟩ (exApp.take 4)
+    let s5 := run Ex.cfgT ⟨initWorld 2 3, []⟩ (exApp.take 5)
+    let s6 := run Ex.cfgT ⟨initWorld 2 3, []⟩ (exApp.take 6)
+    returned Ex.cfgT s4 (.appendMove 0 2, [3]) = false ∧
+    (s4.w.mem (s4.w.hdr 2).data).take (s4.w.hdr 2).size = [.obj (.val 3), .obj (.val 4), .obj (.val 5), .obj (.val 1), .obj (.val 2)] ∧
+    s5.w.mem (s5.w.hdr 2).data = s4.w.mem (s4.w.hdr 2).data ∧ s5.w.hdr 0 = s4.w.hdr 0 ∧ s5.w.hdr 2 = s4.w.hdr 2 ∧ s5.w.live = s4.w.live ∧
+    (s6.w.mem (s6.w.hdr 0).data).take (s6.w.hdr 0).size =
+      [.obj (.val 1), .obj (.val 2), .obj (.val 3), .obj (.val 4), .obj (.val 5), .obj (.val 1), .obj (.val 2)] ∧
+    (s6.w.hdr 2).size = 0 := by decide +kernel
+/-- moving mode, move may throw: the 5th call throws after two moves — the source keeps five constructed elements, two of
+    them moved-from; the destination is as before -/
+example : let s4 := run cfgNC ⟨initWorld 2 3, []⟩ (exApp.take 4)
+    let s5 := run cfgNC ⟨initWorld 2 3, []⟩ (exApp.take 5)
+    returned cfgNC s4 (.appendMove 0 2, [3]) = false ∧ s5.w.hdr 0 = s4.w.hdr 0 ∧ s5.w.hdr 2 = s4.w.hdr 2 ∧ s5.w.live = s4.w.live ∧
+    (s5.w.mem (s5.w.hdr 2).data).take (s5.w.hdr 2).size = [.obj .husk, .obj .husk, .obj (.val 5), .obj (.val 1), .obj (.val 2)] ∧
+    (s5.w.mem (s5.w.hdr 0).data).take (s5.w.hdr 0).size = [.obj (.val 1), .obj (.val 2)] := by decide +kernel
+/-- moving mode, nothrow move: the only fault point is the allocation (index 0; with index 1 the call returns), and the
+    failed call changed neither operand -/
+example : let s4 := run cfgNT ⟨initWorld 2 3, []⟩ (exApp.take 4)
+    returned cfgNT s4 (.appendMove 0 2, [0]) = false ∧ returned cfgNT s4 (.appendMove 0 2, [1]) = true ∧
+    (step cfgNT s4 (.appendMove 0 2, [0])).w.mem (s4.w.hdr 0).data = s4.w.mem (s4.w.hdr 0).data ∧
+    (step cfgNT s4 (.appendMove 0 2, [0])).w.mem (s4.w.hdr 2).data = s4.w.mem (s4.w.hdr 2).data ∧
+    (step cfgNT s4 (.appendMove 0 2, [0])).w.hdr 0 = s4.w.hdr 0 ∧ (step cfgNT s4 (.appendMove 0 2, [0])).w.hdr 2 = s4.w.hdr 2 := by decide +kernel
 
 end SvModel.System
